@@ -1,5 +1,14 @@
 ---- MODULE MCNoiseChannels ----
 EXTENDS NoiseChannels
+(* Named mechanism variants (FlipKind, DephKind) used by harness/drivers/C24.py; the driver identifies
+   which one the tree under check follows (operator entries + verdict equal on every case):
+     block2flip_dephasing_repaired  ("block2", "sigmaz2_projector3")  eff_noise: leading 2x2 block flip (as found),
+                                                                       dephasing: sqrt(2G)|one><one| when the leakage
+                                                                       level exists (repaired by 1efe2df).  TLC predicts
+                                                                       exactly the eff_noise / ising / dim 3 cases as failing.
+     fully_repaired                 ("perm",   "sigmaz2_projector3")  no failing case
+     as_found_round0                ("block2", "sigmaz")              eff_noise:ising:dim3 + dephasing:{ising,XY}:dim3 fail
+     perm_sigmaz, block2_projector, intended_pulser_form ("perm", "projector")                                      *)
 cAmps1 == {1}
 cAmps2 == {1, 2}
 cAmps3 == {1, 2, 3}
